@@ -1451,6 +1451,12 @@ func c06gen(c *h.Ctx, yield func(*h.Case)) {
 				}
 				// Tree.Equal; a tree value without roster; bytes that are no description / no binary form;
 				// a binary form whose roster was exchanged for another, or dropped
+				// tree 13 claims the id of tree 1 and differs from it somewhere below (or, for a single node, at) the root
+				{
+					k := len(first.pos) - 1 - r.Intn((len(first.pos)+1)/2)
+					other := first.withLeaf(13, 1, k, r.Intn(n))
+					ops = append(ops, other.op(), "c06 equal 1 13", "c06 equal 13 1", "c06 equal 13 13")
+				}
 				ops = append(ops, "c06 equal 1 1", fmt.Sprintf("c06 equal 1 %d", 2+r.Intn(3)), fmt.Sprintf("c06 equal %d 1", 2+r.Intn(3)),
 					"c06 strip 12 1", "c06 marshal-rt 12 1", "c06 marshal-rt 12 nil", "c06 binary-rt 12", "c06 equal 12 1",
 					"c06 frommarshal "+c06junkKinds[r.Intn(3)]+" 1", "c06 frommarshal "+c06junkKinds[r.Intn(3)]+" nil",
